@@ -119,3 +119,21 @@ func ZZ_C06_regionReservationLeft(reserved, used64, cost int64) bool {
 // The group is already in debit mode (its previous grant was the last one):
 // the response grants zero units but carries no final-unit action.
 func ZZ_C06_regionDebitMode(mode int64) bool { return mode == 2 }
+
+// C06 with two rating groups in one request (update or final report): a
+// compliant consumer (used x cost <= reservation held for that group) never
+// drives either balance or reservation negative.
+//
+//gosx:property=C06 tier=quick unwind=40 timeout=30000
+func ZZ_C06_TwoGroups() {
+	t, req := zzTwoGroupsSetup(true)
+	for i := 0; i < 2; i++ {
+		vx.Assume(int64(t.used[i])*t.cost <= t.reserved[i]) // usage within what was granted and paid for
+	}
+	sessionChargingReservation(req)
+	ue, _ := chf_context.GetSelf().ChfUeFindBySupi(zzSupi)
+	for i := 0; i < 2; i++ {
+		vx.Assert("balance of each group never negative", zzBalance(zzSupi, t.rg[i]) >= 0)
+		vx.Assert("reservation of each group never negative", ue.ReservedQuota[t.rg[i]] >= 0)
+	}
+}
